@@ -359,7 +359,39 @@ func (fx *fnExec) assignsObl(arr, idx string, in ssa.Instruction, pos token.Pos)
 		text = arr
 	}
 	n := fx.g.occurrenceOf(fx, text, pos)
-	fx.addObl("assigns", fmt.Sprintf("%s#%d", text, n), fx.allProps(), or(alts...), pos, "write to "+arr+" permitted by modifies")
+	fx.addObl("assigns", fmt.Sprintf("%s#%d", text, n), fx.immutProps(arr, fx.allProps()), or(alts...), pos, "write to "+arr+" permitted by modifies")
+}
+
+// immutProps: a store to a field of a type that has declared object invariants is also an obligation of
+// every property those invariants serve - the invariants are assumed elsewhere on the strength of
+// "objects of this type are never modified after construction", and this frame obligation is that premise.
+func (fx *fnExec) immutProps(arr string, props []string) []string {
+	out := append([]string{}, props...)
+	has := map[string]bool{}
+	for _, p := range out {
+		has[p] = true
+	}
+	for _, oi := range fx.g.cs.ObjInvs {
+		t := fx.g.lookupType(oi.Pkg, oi.Type)
+		if t == nil || structOf(t) == nil {
+			continue
+		}
+		for i := 0; i < structOf(t).NumFields(); i++ {
+			if a, _ := fx.fieldArr(t, i); a == arr {
+				ps := oi.Props
+				if len(ps) == 0 {
+					ps = []string{"C07"}
+				}
+				for _, p := range ps {
+					if !has[p] {
+						has[p] = true
+						out = append(out, p)
+					}
+				}
+			}
+		}
+	}
+	return out
 }
 
 func (fx *fnExec) newRef(st *state) string {
